@@ -25,6 +25,7 @@ type rxFeatures struct {
 type rxTok struct {
 	k    lexer.TkKind
 	attr bool // for identifiers: spelled "const" or "close"
+	clos bool // for identifiers: spelled "close"
 }
 
 func rxIsSpace(c byte) bool { return c == ' ' || c == '\t' || c == '\n' || c == '\r' || c == '\v' || c == '\f' }
@@ -212,7 +213,7 @@ func rxLex(s []byte, f *rxFeatures) (toks []rxTok, ok bool) {
 			if k, isKw := rxKeywords[w]; isKw {
 				toks = append(toks, rxTok{k: k})
 			} else {
-				toks = append(toks, rxTok{k: lexer.TkIdentifier, attr: w == "const" || w == "close"})
+				toks = append(toks, rxTok{k: lexer.TkIdentifier, attr: w == "const" || w == "close", clos: w == "close"})
 			}
 			i = j
 		case rxIsDigit(c) || (c == '.' && i+1 < len(s) && rxIsDigit(s[i+1])):
@@ -558,12 +559,19 @@ func (p *rxP) stat() {
 			p.funcbody()
 			return
 		}
+		closes := 0
 		for {
 			p.expect(lexer.TkIdentifier)
 			if p.accept(lexer.TkOpLt) {
 				p.f.attrib = true
 				if p.i < len(p.t) && p.t[p.i].k == lexer.TkIdentifier && !p.t[p.i].attr {
 					p.bad = true // only <const> and <close> exist
+				}
+				if p.i < len(p.t) && p.t[p.i].clos {
+					closes++
+					if closes > 1 {
+						p.bad = true // "multiple to-be-closed variables in local list"
+					}
 				}
 				p.expect(lexer.TkIdentifier)
 				p.expect(lexer.TkOpGt)
